@@ -144,4 +144,662 @@ theorem members_map {ι κ : Type} (f : ι → κ) (t : Tree ι) : (t.map f).mem
   | leaf p ids => rfl
   | node i lo hi ihl ihh => simp [Tree.map, Tree.members, ihl, ihh]
 
+/-! ## Where `split_pos` lies -/
+
+/-- The reported `split_pos` is the last `max` on the all-left exit and the last target
+`(min + max) / 2.0` on every other exit. -/
+theorem split_pos_aux (wt : Int → Int → Bool) (coord : Nat) (sum : Int) (items : List (Item α)) :
+    ∀ (fuel it : Nat) (mn mx : α) (prev : Option Nat) (mv : Bool) (out : SplitOut α),
+      split wt coord sum items fuel it mn mx prev mv = .ok out →
+      (out.exit = .allLeft ∧ out.splitPos = out.lastMax) ∨
+      (out.exit ≠ .allLeft ∧ out.splitPos = Coord.half (Coord.add out.lastMin out.lastMax)) := by
+  intro fuel
+  induction fuel with
+  | zero => intro it mn mx prev mv out h; simp [split] at h
+  | succ fuel ih =>
+    intro it mn mx prev mv out h
+    simp only [split] at h
+    split at h
+    · split at h
+      · cases h; exact Or.inl ⟨rfl, rfl⟩
+      · exact ih _ _ _ _ _ _ h
+    · next idx nd hn =>
+      split at h
+      · next e hex =>
+        split at h
+        · cases h
+        · cases h
+        · next l r hr =>
+          cases h
+          refine Or.inr ⟨?_, rfl⟩
+          simp only
+          intro hc
+          subst hc
+          split at hex
+          · cases hex
+          · split at hex
+            · cases hex
+            · split at hex
+              · cases hex
+              · cases hex
+      · split at h
+        · exact ih _ _ _ _ _ _ h
+        · exact ih _ _ _ _ _ _ h
+
+/-! ## From the items of a node to the points and weights of the caller -/
+
+/-- Every item carries the coordinates and the weight of the point its `id` names. -/
+def ItemsOf (pts : List (List Int)) (ws : List Int) (items : List (Item Int)) : Prop :=
+  ∀ x ∈ items, (∀ c, x.key c = ptKey pts x.id c) ∧ x.w = ws.getD x.id 0
+
+theorem ItemsOf.mono {pts : List (List Int)} {ws : List Int} {L L' : List (Item Int)}
+    (h : ItemsOf pts ws L) (hsub : ∀ x ∈ L', x ∈ L) : ItemsOf pts ws L' :=
+  fun x hx => h x (hsub x hx)
+
+theorem wOf_cons (ws : List Int) (i : Nat) (ids : List Nat) :
+    wOf ws (i :: ids) = ws.getD i 0 + wOf ws ids := by
+  simp [wOf]
+
+theorem wOf_append (ws : List Int) (a b : List Nat) : wOf ws (a ++ b) = wOf ws a + wOf ws b := by
+  simp [wOf]
+
+theorem wOf_perm (ws : List Int) {a b : List Nat} (h : a.Perm b) : wOf ws a = wOf ws b := by
+  induction h with
+  | nil => rfl
+  | cons x _ ih => simp only [wOf_cons, ih]
+  | swap x y l => simp only [wOf_cons]; omega
+  | trans _ _ ih1 ih2 => rw [ih1, ih2]
+
+theorem wOf_items {pts : List (List Int)} {ws : List Int} {L : List (Item Int)}
+    (h : ItemsOf pts ws L) : wOf ws (L.map (·.id)) = sumW L := by
+  induction L with
+  | nil => rfl
+  | cons x xs ih =>
+    have hx := (h x List.mem_cons_self).2
+    rw [List.map_cons, wOf_cons, sumW_cons, ← hx,
+      ih (h.mono (fun y hy => List.mem_cons_of_mem _ hy))]
+
+theorem wOf_of_perm {pts : List (List Int)} {ws : List Int} {L : List (Item Int)} {ids : List Nat}
+    (h : ItemsOf pts ws L) (hp : ids.Perm (L.map (·.id))) : wOf ws ids = sumW L := by
+  rw [wOf_perm ws hp, wOf_items h]
+
+theorem Lw_perm {L L' : List (Item Int)} (h : L.Perm L') (coord : Nat) (v : Int) :
+    Lw L coord v = Lw L' coord v :=
+  sumW_perm (h.filter _)
+
+/-- The weight of the members strictly left of the point `y.id` is `Lw` at `y`'s key. -/
+theorem wOf_filter_lt {pts : List (List Int)} {ws : List Int} {L : List (Item Int)} {ids : List Nat}
+    (h : ItemsOf pts ws L) (hp : ids.Perm (L.map (·.id))) (coord : Nat) (y : Item Int) (hy : y ∈ L) :
+    wOf ws (ids.filter (fun j => Coord.lt (ptKey pts j coord) (ptKey pts y.id coord))) =
+      Lw L coord (y.key coord) := by
+  rw [wOf_perm ws (hp.filter _), List.filter_map,
+    wOf_items (h.mono (fun x hx => (List.mem_filter.1 hx).1))]
+  unfold Lw
+  apply sumW_filter_congr
+  intro x hx
+  simp only [Function.comp, ← (h x hx).1 coord, ← (h y hy).1 coord, int_lt]
+
+theorem achievable_mem_iff {pts : List (List Int)} {ws : List Int} {L : List (Item Int)}
+    {ids : List Nat} (h : ItemsOf pts ws L) (hp : ids.Perm (L.map (·.id))) (coord : Nat) (a : Int) :
+    a ∈ achievable pts ws coord ids ↔ a ∈ achievableItems L coord := by
+  simp only [achievable, achievableItems, List.mem_cons, List.mem_map]
+  rw [wOf_of_perm h hp]
+  constructor
+  · rintro (rfl | ⟨i, hi, rfl⟩)
+    · exact Or.inl rfl
+    · obtain ⟨y, hy, rfl⟩ := List.mem_map.1 (hp.mem_iff.1 hi)
+      exact Or.inr ⟨y, hy, (wOf_filter_lt h hp coord y hy).symm⟩
+  · rintro (rfl | ⟨y, hy, rfl⟩)
+    · exact Or.inl rfl
+    · exact Or.inr ⟨y.id, hp.mem_iff.2 (List.mem_map.2 ⟨y, hy, rfl⟩), wOf_filter_lt h hp coord y hy⟩
+
+theorem achievableItems_perm_mem {L L' : List (Item Int)} (h : L.Perm L') (coord : Nat) (a : Int) :
+    a ∈ achievableItems L coord ↔ a ∈ achievableItems L' coord := by
+  simp only [achievableItems, List.mem_cons, List.mem_map]
+  rw [sumW_perm h]
+  constructor
+  · rintro (rfl | ⟨y, hy, rfl⟩)
+    · exact Or.inl rfl
+    · exact Or.inr ⟨y, h.mem_iff.1 hy, (Lw_perm h coord _).symm⟩
+  · rintro (rfl | ⟨y, hy, rfl⟩)
+    · exact Or.inl rfl
+    · exact Or.inr ⟨y, h.mem_iff.2 hy, Lw_perm h coord _⟩
+
+theorem bracketsHalf_congr {A B : List Int} (h : ∀ a, a ∈ A ↔ a ∈ B) (wl W : Int) :
+    bracketsHalf A wl W = bracketsHalf B wl W := by
+  unfold bracketsHalf
+  have h1 : A.contains wl = B.contains wl := by
+    rw [Bool.eq_iff_iff, List.contains_iff_mem, List.contains_iff_mem]; exact h wl
+  have h2 : ∀ p : Int → Bool, A.all p = B.all p := by
+    intro p
+    rw [Bool.eq_iff_iff, List.all_eq_true, List.all_eq_true]
+    exact ⟨fun g a ha => g a ((h a).2 ha), fun g a ha => g a ((h a).1 ha)⟩
+  rw [h1, h2]
+
+/-- C04's clause at a node, in the vocabulary of the caller (`nodeOk`: points, weights,
+member lists), is the clause in the vocabulary of the search (`sumW`, `achievableItems`)
+whenever the members are the ids of the items. -/
+theorem nodeOk_of_items (wt : Int → Int → Bool) {pts : List (List Int)} {ws : List Int}
+    {items L R : List (Item Int)} {lom him : List Nat} (coord : Nat)
+    (hI : ItemsOf pts ws items) (hperm : (L ++ R).Perm items)
+    (hl : lom.Perm (L.map (·.id))) (hr : him.Perm (R.map (·.id))) :
+    nodeOk wt pts ws coord lom him =
+      (wt (sumW L) (sumW items) || bracketsHalf (achievableItems items coord) (sumW L) (sumW items)) := by
+  have hIlr : ItemsOf pts ws (L ++ R) := hI.mono (fun x hx => hperm.mem_iff.1 hx)
+  have hIl : ItemsOf pts ws L := hIlr.mono (fun x hx => List.mem_append_left _ hx)
+  have hall : (lom ++ him).Perm ((L ++ R).map (·.id)) := by
+    rw [List.map_append]; exact hl.append hr
+  unfold nodeOk
+  simp only
+  rw [wOf_of_perm hIl hl, wOf_of_perm hIlr hall, sumW_perm hperm]
+  congr 1
+  apply bracketsHalf_congr
+  intro a
+  rw [achievable_mem_iff hIlr hall coord a, achievableItems_perm_mem hperm coord a]
+
+/-! ## The premise, in the vocabulary of the caller -/
+
+/-- `Resolved` over point indices: the members whose coordinate lies in the final search
+interval carry at most one distinct coordinate value. -/
+def ResolvedPts (pts : List (List Int)) (coord : Nat) (ids : List Nat) (mn mx : Int) (moved : Bool) :
+    Prop :=
+  ∀ i ∈ ids, ∀ j ∈ ids, InIv mn mx moved (ptKey pts i coord) → InIv mn mx moved (ptKey pts j coord) →
+    ptKey pts i coord = ptKey pts j coord
+
+def resolvedPtsB (pts : List (List Int)) (coord : Nat) (ids : List Nat) (mn mx : Int) (moved : Bool) :
+    Bool :=
+  ids.all (fun i => ids.all (fun j =>
+    !(inIvB mn mx moved (ptKey pts i coord)) || !(inIvB mn mx moved (ptKey pts j coord)) ||
+      decide (ptKey pts i coord = ptKey pts j coord)))
+
+theorem resolvedPtsB_iff (pts : List (List Int)) (coord : Nat) (ids : List Nat) (mn mx : Int)
+    (moved : Bool) : resolvedPtsB pts coord ids mn mx moved = true ↔ ResolvedPts pts coord ids mn mx moved := by
+  unfold resolvedPtsB ResolvedPts
+  simp only [List.all_eq_true, Bool.or_eq_true, Bool.not_eq_true', decide_eq_true_eq]
+  constructor
+  · intro h x hx y hy hxi hyi
+    rcases h x hx y hy with (h1 | h1) | h1
+    · rw [(inIvB_iff ..).2 hxi] at h1; cases h1
+    · rw [(inIvB_iff ..).2 hyi] at h1; cases h1
+    · exact h1
+  · intro h x hx y hy
+    by_cases hxi : inIvB mn mx moved (ptKey pts x coord) = true
+    · by_cases hyi : inIvB mn mx moved (ptKey pts y coord) = true
+      · exact Or.inr (h x hx y hy ((inIvB_iff ..).1 hxi) ((inIvB_iff ..).1 hyi))
+      · exact Or.inl (Or.inr (by simpa using hyi))
+    · exact Or.inl (Or.inl (by simpa using hxi))
+
+theorem resolved_of_pts {pts : List (List Int)} {ws : List Int} {items : List (Item Int)}
+    {ids : List Nat} (hI : ItemsOf pts ws items) (hp : ids.Perm (items.map (·.id))) (coord : Nat)
+    (mn mx : Int) (moved : Bool) (h : ResolvedPts pts coord ids mn mx moved) :
+    Resolved items coord mn mx moved := by
+  intro x hx y hy hxi hyi
+  have hxm : x.id ∈ ids := hp.mem_iff.2 (List.mem_map.2 ⟨x, hx, rfl⟩)
+  have hym : y.id ∈ ids := hp.mem_iff.2 (List.mem_map.2 ⟨y, hy, rfl⟩)
+  rw [(hI x hx).1 coord] at hxi ⊢
+  rw [(hI y hy).1 coord] at hyi ⊢
+  exact h _ hxm _ hym hxi hyi
+
+/-- The premise of `split_balanced_partial` at a node of the instrumented tree: the search
+left through the tolerance test, or its final interval is resolved. -/
+def NodePremise (pts : List (List Int)) (tr : NodeTrace Int) (lo hi : Tree (NodeTrace Int)) : Prop :=
+  tr.info.exit = .tolerance ∨
+    ResolvedPts pts tr.info.coord (lo.members ++ hi.members) tr.lastMin tr.lastMax tr.maxMoved
+
+def nodePremiseB (pts : List (List Int)) (tr : NodeTrace Int) (lo hi : Tree (NodeTrace Int)) : Bool :=
+  tr.info.exit == .tolerance ||
+    resolvedPtsB pts tr.info.coord (lo.members ++ hi.members) tr.lastMin tr.lastMax tr.maxMoved
+
+theorem nodePremiseB_iff (pts : List (List Int)) (tr : NodeTrace Int) (lo hi : Tree (NodeTrace Int)) :
+    nodePremiseB pts tr lo hi = true ↔ NodePremise pts tr lo hi := by
+  unfold nodePremiseB NodePremise
+  rw [Bool.or_eq_true, resolvedPtsB_iff, beq_iff_eq]
+
+/-! ## One search, as seen by `rcb_recurse` -/
+
+/-- (= `jinv_of_box` of Props/C04) a box containing the items brackets the half. -/
+theorem jinv_of_box_aux (coord : Nat) (items : List (Item Int)) (hw : ∀ x ∈ items, 0 ≤ x.w)
+    (mn mx : Int) (hne : items ≠ []) (hbox : ∀ x ∈ items, mn ≤ x.key coord ∧ x.key coord ≤ mx) :
+    Jinv items coord (sumW items) mn mx false := by
+  have hW0 : 0 ≤ sumW items := by
+    have := sumW_filter_le_total items (fun _ => false) hw
+    rw [List.filter_eq_nil_iff.2 (by intro x _; simp)] at this
+    simpa [sumW] using this
+  refine ⟨?_, ?_, ?_⟩
+  · cases items with
+    | nil => exact absurd rfl hne
+    | cons x xs => have := hbox x List.mem_cons_self; omega
+  · have : Lw items coord mn = 0 := by
+      unfold Lw
+      rw [List.filter_eq_nil_iff.2 (by intro x hx; have := hbox x hx; simp; omega)]
+      rfl
+    omega
+  · simp only [Bool.false_eq_true, if_false]
+    have : Lle items coord mx = sumW items :=
+      sumW_filter_total items _ (by intro x hx; have := hbox x hx; simp; omega)
+    omega
+
+/-- (= `split_balanced_partial` of Props/C04.) -/
+theorem split_balanced_aux (wt : Int → Int → Bool) (coord : Nat) (items : List (Item Int))
+    (hw : ∀ x ∈ items, 0 ≤ x.w) (fuel : Nat) (mn mx : Int) (out : SplitOut Int)
+    (hJ : Jinv items coord (sumW items) mn mx false)
+    (h : split wt coord (sumW items) items fuel 0 mn mx none false = .ok out)
+    (hprem : out.exit = .tolerance ∨ Resolved items coord out.lastMin out.lastMax out.maxMoved) :
+    wt (sumW out.left) (sumW items) = true ∨
+      bracketsHalf (achievableItems items coord) (sumW out.left) (sumW items) = true := by
+  rcases hprem with he | hres
+  · left
+    rw [← (split_reported_weight_aux wt coord items hw fuel mn mx out h).1]
+    exact split_exit_tol_aux wt coord _ items fuel 0 mn mx none false out h he
+  · right
+    exact split_exit_resolved_aux wt coord items hw fuel mn mx out hJ h hres
+
+/-- The two sides a search returns lie on their sides of the reported `split_pos`
+(whichever exit; started from a box containing the items): this is what makes the clipped
+boxes handed to the children contain the children's items. -/
+theorem split_sides (wt : Int → Int → Bool) (coord : Nat) (items : List (Item Int))
+    (hw : ∀ x ∈ items, 0 ≤ x.w) (fuel : Nat) (mn mx : Int) (out : SplitOut Int)
+    (hJ : Jinv items coord (sumW items) mn mx false)
+    (h : split wt coord (sumW items) items fuel 0 mn mx none false = .ok out) :
+    (∀ x ∈ out.left, x.key coord ≤ out.splitPos) ∧ (∀ x ∈ out.right, out.splitPos ≤ x.key coord) ∧
+      (out.left ++ out.right).Perm items := by
+  obtain ⟨hJ', hf⟩ := split_facts True wt coord _ items hw rfl fuel 0 mn mx none false out
+    (fun _ => hJ) h
+  obtain ⟨hJ1, _, _⟩ := hJ' trivial
+  have hsp := split_pos_aux wt coord (sumW items) items fuel 0 mn mx none false out h
+  simp only [int_half, int_add] at hsp
+  rcases hf with ⟨he, h1, h2, _, hall⟩ | ⟨hne, p, hpm, hpt, hpmin, hperm, hl, hr, _⟩
+  · rcases hsp with ⟨_, hsp⟩ | ⟨hne, _⟩
+    · rw [h1, h2, hsp]
+      refine ⟨?_, (by intro x hx; cases hx), (by simp)⟩
+      intro x hx
+      have := hall x hx
+      omega
+    · exact absurd he hne
+  · rcases hsp with ⟨he, _⟩ | ⟨_, hsp⟩
+    · exact absurd he hne
+    · rw [hsp]
+      refine ⟨?_, ?_, hperm⟩
+      · intro x hx
+        have hxm : x ∈ items := hperm.mem_iff.1 (List.mem_append_left _ hx)
+        have h1 := hl x hx
+        rcases Int.lt_or_le (x.key coord) ((out.lastMin + out.lastMax) / 2) with h2 | h2
+        · omega
+        · have := hpmin x hxm h2; omega
+      · intro x hx
+        have h1 := hr x hx
+        omega
+
+/-! ## The invariant of the recursion -/
+
+theorem getD_set_self {β : Type} (l : List β) (i : Nat) (v d : β) (h : i < l.length) :
+    (l.set i v).getD i d = v := by
+  rw [List.getD_eq_getElem?_getD, List.getElem?_set_self h]; rfl
+
+theorem getD_set_ne {β : Type} (l : List β) (i j : Nat) (v d : β) (h : i ≠ j) :
+    (l.set i v).getD j d = l.getD j d := by
+  rw [List.getD_eq_getElem?_getD, List.getElem?_set_ne h, ← List.getD_eq_getElem?_getD]
+
+/-- (ii) the bounding box `lo`, `hi` has `dim` coordinates and contains the items on every
+axis. -/
+def BoxOk (dim : Nat) (items : List (Item Int)) (lo hi : List Int) : Prop :=
+  lo.length = dim ∧ hi.length = dim ∧
+    ∀ x ∈ items, ∀ c, c < dim → lo.getD c Coord.zero ≤ x.key c ∧ x.key c ≤ hi.getD c Coord.zero
+
+/-- What holds at EVERY bisection node of a run in exact arithmetic, whichever exit its
+search took: the weights the code carries are the true weights of the members, the interval
+the search starts from contains the members, the two sides lie on their sides of
+`split_pos`; and the node meets C04's clause if its search meets the premise. -/
+def NodeFacts (wt : Int → Int → Bool) (pts : List (List Int)) (ws : List Int) (tr : NodeTrace Int)
+    (lo hi : Tree (NodeTrace Int)) : Prop :=
+  tr.info.sum = wOf ws (lo.members ++ hi.members) ∧
+  tr.info.weightLeft = wOf ws lo.members ∧
+  (∀ i ∈ lo.members ++ hi.members,
+    tr.info.min ≤ ptKey pts i tr.info.coord ∧ ptKey pts i tr.info.coord ≤ tr.info.max) ∧
+  (∀ i ∈ lo.members, ptKey pts i tr.info.coord ≤ tr.info.splitPos) ∧
+  (∀ j ∈ hi.members, tr.info.splitPos ≤ ptKey pts j tr.info.coord) ∧
+  (NodePremise pts tr lo hi → nodeOk wt pts ws tr.info.coord lo.members hi.members = true)
+
+theorem recurseT_facts (wt : Int → Int → Bool) (cfg : Cfg) (pts : List (List Int)) (ws : List Int)
+    (hdim : 0 < cfg.dim) :
+    ∀ (k : Nat) (items : List (Item Int)) (iterId coord : Nat) (sum : Int) (lo hi : List Int)
+      (tt : Tree (NodeTrace Int)),
+      (∀ x ∈ items, 0 ≤ x.w) → ItemsOf pts ws items → sum = sumW items → coord < cfg.dim →
+      BoxOk cfg.dim items lo hi →
+      recurseT wt cfg k items iterId coord sum lo hi = .ok tt →
+      tt.members.Perm (items.map (·.id)) ∧ tt.AllNodes (NodeFacts wt pts ws) := by
+  intro k
+  induction k with
+  | zero =>
+    intro items iterId coord sum lo hi tt _ _ _ _ _ h
+    cases items with
+    | nil => simp [recurseT] at h; subst h; simp [Tree.members, Tree.AllNodes]
+    | cons x xs => simp [recurseT] at h; subst h; simp [Tree.members, Tree.AllNodes]
+  | succ k ih =>
+    intro items iterId coord sum lo hi tt hw hI hsum hc hbox h
+    cases items with
+    | nil => simp [recurseT] at h; subst h; simp [Tree.members, Tree.AllNodes]
+    | cons x xs =>
+      simp only [recurseT] at h
+      split at h
+      · cases h
+      · cases h
+      · next r hr =>
+        subst hsum
+        obtain ⟨hlo, hhi, hin⟩ := hbox
+        have hbc : ∀ y ∈ x :: xs, lo.getD coord Coord.zero ≤ y.key coord ∧
+            y.key coord ≤ hi.getD coord Coord.zero := fun y hy => hin y hy coord hc
+        have hJ := jinv_of_box_aux coord (x :: xs) hw _ _ (by simp) hbc
+        obtain ⟨hsl, hsr, hperm⟩ := split_sides wt coord (x :: xs) hw cfg.fuel _ _ r hJ hr
+        obtain ⟨hwl, hwr⟩ := split_reported_weight_aux wt coord (x :: xs) hw cfg.fuel _ _ r hr
+        have hml : ∀ y ∈ r.left, y ∈ x :: xs := fun y hy =>
+          hperm.mem_iff.1 (List.mem_append_left _ hy)
+        have hmr : ∀ y ∈ r.right, y ∈ x :: xs := fun y hy =>
+          hperm.mem_iff.1 (List.mem_append_right _ hy)
+        have hc' : (coord + 1) % cfg.dim < cfg.dim := Nat.mod_lt _ hdim
+        split at h
+        · cases h
+        · cases h
+        next tl hl =>
+        split at h
+        · cases h
+        · cases h
+        next trr htr =>
+        cases h
+        obtain ⟨pl, al⟩ := ih r.left _ _ _ _ _ tl (fun y hy => hw y (hml y hy)) (hI.mono hml) hwl hc'
+          ⟨hlo, by rw [List.length_set]; exact hhi, by
+            intro y hy c hcd
+            have := hin y (hml y hy) c hcd
+            by_cases hcc : coord = c
+            · subst hcc
+              rw [getD_set_self _ _ _ _ (by omega)]
+              exact ⟨this.1, hsl y hy⟩
+            · rw [getD_set_ne _ _ _ _ _ hcc]; exact this⟩ hl
+        obtain ⟨pr, ar⟩ := ih r.right _ _ _ _ _ trr (fun y hy => hw y (hmr y hy)) (hI.mono hmr) hwr hc'
+          ⟨by rw [List.length_set]; exact hlo, hhi, by
+            intro y hy c hcd
+            have := hin y (hmr y hy) c hcd
+            by_cases hcc : coord = c
+            · subst hcc
+              rw [getD_set_self _ _ _ _ (by omega)]
+              exact ⟨hsr y hy, this.2⟩
+            · rw [getD_set_ne _ _ _ _ _ hcc]; exact this⟩ htr
+        have hIlr : ItemsOf pts ws (r.left ++ r.right) := hI.mono (fun y hy => hperm.mem_iff.1 hy)
+        have hall : (tl.members ++ trr.members).Perm ((r.left ++ r.right).map (·.id)) := by
+          rw [List.map_append]; exact pl.append pr
+        have hall' : (tl.members ++ trr.members).Perm ((x :: xs).map (·.id)) :=
+          hall.trans (hperm.map _)
+        -- a member is the id of an item
+        have hmem : ∀ (L : List (Item Int)) (ids : List Nat), ids.Perm (L.map (·.id)) →
+            (∀ y ∈ L, y ∈ x :: xs) → ∀ i ∈ ids, ∃ y ∈ L, ptKey pts i coord = y.key coord := by
+          intro L ids hp hsub i hi
+          obtain ⟨y, hy, rfl⟩ := List.mem_map.1 (hp.mem_iff.1 hi)
+          exact ⟨y, hy, ((hI y (hsub y hy)).1 coord).symm⟩
+        refine ⟨hall', ⟨?_, ?_, ?_, ?_, ?_, ?_⟩, al, ar⟩
+        · show sumW (x :: xs) = _
+          rw [wOf_of_perm hIlr hall, sumW_perm hperm]
+        · show r.weightLeft = _
+          rw [wOf_of_perm (hI.mono hml) pl, hwl]
+        · intro i hi
+          obtain ⟨y, hy, e⟩ := hmem (r.left ++ r.right) _ hall (fun y hy => hperm.mem_iff.1 hy) i hi
+          show _ ≤ ptKey pts i coord ∧ ptKey pts i coord ≤ _
+          rw [e]
+          exact hbc y (hperm.mem_iff.1 hy)
+        · intro i hi
+          obtain ⟨y, hy, e⟩ := hmem r.left _ pl hml i hi
+          show ptKey pts i coord ≤ r.splitPos
+          rw [e]; exact hsl y hy
+        · intro i hi
+          obtain ⟨y, hy, e⟩ := hmem r.right _ pr hmr i hi
+          show r.splitPos ≤ ptKey pts i coord
+          rw [e]; exact hsr y hy
+        · intro hprem
+          show nodeOk wt pts ws coord tl.members trr.members = true
+          rw [nodeOk_of_items wt coord hI hperm pl pr, Bool.or_eq_true]
+          refine split_balanced_aux wt coord (x :: xs) hw cfg.fuel _ _ r hJ hr ?_
+          rcases hprem with he | hres
+          · exact Or.inl he
+          · exact Or.inr (resolved_of_pts hI hall' coord _ _ _ hres)
+
+/-- Exits are permutations (exact arithmetic; no box needed). -/
+theorem split_perm_int (wt : Int → Int → Bool) (coord : Nat) (items : List (Item Int))
+    (hw : ∀ x ∈ items, 0 ≤ x.w) (fuel : Nat) (mn mx : Int) (out : SplitOut Int)
+    (h : split wt coord (sumW items) items fuel 0 mn mx none false = .ok out) :
+    (out.left ++ out.right).Perm items := by
+  obtain ⟨_, hf⟩ := split_facts False wt coord _ items hw rfl fuel 0 mn mx none false out
+    (fun g => g.elim) h
+  rcases hf with ⟨_, h1, h2, _, _⟩ | ⟨_, p, _, _, _, hperm, _, _, _⟩
+  · rw [h1, h2]; simp
+  · exact hperm
+
+/-- The part of `NodeFacts` that needs no bounding box (and no `0 < dim`): true weights, and
+C04's clause at the nodes that leave through the tolerance test. -/
+def NodeSums (wt : Int → Int → Bool) (pts : List (List Int)) (ws : List Int) (tr : NodeTrace Int)
+    (lo hi : Tree (NodeTrace Int)) : Prop :=
+  tr.info.sum = wOf ws (lo.members ++ hi.members) ∧
+  tr.info.weightLeft = wOf ws lo.members ∧
+  (tr.info.exit = .tolerance → nodeOk wt pts ws tr.info.coord lo.members hi.members = true)
+
+theorem recurseT_sums (wt : Int → Int → Bool) (cfg : Cfg) (pts : List (List Int)) (ws : List Int) :
+    ∀ (k : Nat) (items : List (Item Int)) (iterId coord : Nat) (sum : Int) (lo hi : List Int)
+      (tt : Tree (NodeTrace Int)),
+      (∀ x ∈ items, 0 ≤ x.w) → ItemsOf pts ws items → sum = sumW items →
+      recurseT wt cfg k items iterId coord sum lo hi = .ok tt →
+      tt.members.Perm (items.map (·.id)) ∧ tt.AllNodes (NodeSums wt pts ws) := by
+  intro k
+  induction k with
+  | zero =>
+    intro items iterId coord sum lo hi tt _ _ _ h
+    cases items with
+    | nil => simp [recurseT] at h; subst h; simp [Tree.members, Tree.AllNodes]
+    | cons x xs => simp [recurseT] at h; subst h; simp [Tree.members, Tree.AllNodes]
+  | succ k ih =>
+    intro items iterId coord sum lo hi tt hw hI hsum h
+    cases items with
+    | nil => simp [recurseT] at h; subst h; simp [Tree.members, Tree.AllNodes]
+    | cons x xs =>
+      simp only [recurseT] at h
+      split at h
+      · cases h
+      · cases h
+      · next r hr =>
+        subst hsum
+        have hperm := split_perm_int wt coord (x :: xs) hw cfg.fuel _ _ r hr
+        obtain ⟨hwl, hwr⟩ := split_reported_weight_aux wt coord (x :: xs) hw cfg.fuel _ _ r hr
+        have hml : ∀ y ∈ r.left, y ∈ x :: xs := fun y hy =>
+          hperm.mem_iff.1 (List.mem_append_left _ hy)
+        have hmr : ∀ y ∈ r.right, y ∈ x :: xs := fun y hy =>
+          hperm.mem_iff.1 (List.mem_append_right _ hy)
+        split at h
+        · cases h
+        · cases h
+        next tl hl =>
+        split at h
+        · cases h
+        · cases h
+        next trr htr =>
+        cases h
+        obtain ⟨pl, al⟩ := ih r.left _ _ _ _ _ tl (fun y hy => hw y (hml y hy)) (hI.mono hml) hwl hl
+        obtain ⟨pr, ar⟩ := ih r.right _ _ _ _ _ trr (fun y hy => hw y (hmr y hy)) (hI.mono hmr) hwr htr
+        have hIlr : ItemsOf pts ws (r.left ++ r.right) := hI.mono (fun y hy => hperm.mem_iff.1 hy)
+        have hall : (tl.members ++ trr.members).Perm ((r.left ++ r.right).map (·.id)) := by
+          rw [List.map_append]; exact pl.append pr
+        refine ⟨hall.trans (hperm.map _), ⟨?_, ?_, ?_⟩, al, ar⟩
+        · show sumW (x :: xs) = _
+          rw [wOf_of_perm hIlr hall, sumW_perm hperm]
+        · show r.weightLeft = _
+          rw [wOf_of_perm (hI.mono hml) pl, hwl]
+        · intro he
+          show nodeOk wt pts ws coord tl.members trr.members = true
+          rw [nodeOk_of_items wt coord hI hperm pl pr, Bool.or_eq_true, ← hwl]
+          exact Or.inl (split_exit_tol_aux wt coord _ (x :: xs) cfg.fuel 0 _ _ none false r hr he)
+
+/-! ## The root: `mkItems` and `bbox` -/
+
+theorem mkItems_w (pts : List (List Int)) (ws : List Int) (x : Item Int) (hx : x ∈ mkItems pts ws) :
+    ws[x.id]? = some x.w := by
+  simp only [mkItems, List.mem_map] at hx
+  obtain ⟨⟨⟨p, w⟩, i⟩, hm, rfl⟩ := hx
+  rw [List.mem_zipIdx_iff_getElem?] at hm
+  simp only at hm ⊢
+  rw [List.getElem?_zip_eq_some] at hm
+  exact hm.2
+
+theorem mkItems_sum (pts : List (List Int)) (ws : List Int) (h : ws.length ≤ pts.length) :
+    sumW (mkItems pts ws) = ws.sum := by
+  simp only [sumW, mkItems, List.map_map]
+  have : ((fun x : Item Int => x.w) ∘ fun x : (List Int × Int) × Nat => (⟨x.2, x.1.2, x.1.1⟩ : Item Int))
+      = Prod.snd ∘ Prod.fst := rfl
+  rw [this, ← List.map_map, List.zipIdx_map_fst, List.map_snd_zip h]
+
+theorem mkItems_itemsOf (pts : List (List Int)) (ws : List Int) : ItemsOf pts ws (mkItems pts ws) := by
+  intro x hx
+  refine ⟨?_, ?_⟩
+  · intro c
+    have := mkItems_key pts ws x hx
+    simp [Item.key, ptKey, List.getD_eq_getElem?_getD, this]
+  · have := mkItems_w pts ws x hx
+    simp [List.getD_eq_getElem?_getD, this]
+
+theorem mkItems_nonneg (pts : List (List Int)) (ws : List Int) (hw : ∀ w ∈ ws, 0 ≤ w) :
+    ∀ x ∈ mkItems pts ws, 0 ≤ x.w := by
+  intro x hx
+  exact hw _ (List.mem_iff_getElem?.2 ⟨_, mkItems_w pts ws x hx⟩)
+
+theorem minMaxFold_spec (xs : List Int) : ∀ (m : Int × Int),
+    let r := xs.foldl (fun (m : Int × Int) v =>
+      (if Coord.lt v m.1 then v else m.1, if Coord.lt m.2 v then v else m.2)) m
+    r.1 ≤ m.1 ∧ m.2 ≤ r.2 ∧ ∀ v ∈ xs, r.1 ≤ v ∧ v ≤ r.2 := by
+  induction xs with
+  | nil => intro m; simp
+  | cons a as ih =>
+    intro m
+    simp only [List.foldl_cons]
+    have hm1 : (if Coord.lt a m.1 then a else m.1) ≤ m.1 ∧ (if Coord.lt a m.1 then a else m.1) ≤ a := by
+      simp only [int_lt, decide_eq_true_eq]; split <;> omega
+    have hm2 : m.2 ≤ (if Coord.lt m.2 a then a else m.2) ∧ a ≤ (if Coord.lt m.2 a then a else m.2) := by
+      simp only [int_lt, decide_eq_true_eq]; split <;> omega
+    obtain ⟨h1, h2, h3⟩ := ih (if Coord.lt a m.1 then a else m.1, if Coord.lt m.2 a then a else m.2)
+    simp only at h1 h2 h3 ⊢
+    refine ⟨by omega, by omega, ?_⟩
+    intro v hv
+    rcases List.mem_cons.1 hv with rfl | hv
+    · constructor <;> omega
+    · exact h3 v hv
+
+theorem minMax_spec (l : List Int) (v : Int) (hv : v ∈ l) :
+    ((minMax l).getD (Coord.zero, Coord.zero)).1 ≤ v ∧ v ≤ ((minMax l).getD (Coord.zero, Coord.zero)).2 := by
+  cases l with
+  | nil => cases hv
+  | cons x xs =>
+    simp only [minMax, Option.getD_some]
+    obtain ⟨h1, h2, h3⟩ := minMaxFold_spec xs (x, x)
+    rcases List.mem_cons.1 hv with rfl | hv
+    · exact ⟨h1, h2⟩
+    · exact h3 v hv
+
+theorem bbox_length (dim : Nat) (pts : List (List Int)) :
+    (bbox dim pts).1.length = dim ∧ (bbox dim pts).2.length = dim := by
+  simp [bbox]
+
+theorem bbox_getD (dim : Nat) (pts : List (List Int)) (c : Nat) (hc : c < dim) :
+    (bbox dim pts).1.getD c Coord.zero =
+        ((minMax (pts.map (fun p => p.getD c Coord.zero))).getD (Coord.zero, Coord.zero)).1 ∧
+      (bbox dim pts).2.getD c Coord.zero =
+        ((minMax (pts.map (fun p => p.getD c Coord.zero))).getD (Coord.zero, Coord.zero)).2 := by
+  simp [bbox, List.getD_eq_getElem?_getD, List.getElem?_range hc]
+
+theorem bbox_boxOk (dim : Nat) (pts : List (List Int)) (ws : List Int) :
+    BoxOk dim (mkItems pts ws) (bbox dim pts).1 (bbox dim pts).2 := by
+  refine ⟨(bbox_length dim pts).1, (bbox_length dim pts).2, ?_⟩
+  intro x hx c hc
+  rw [(bbox_getD dim pts c hc).1, (bbox_getD dim pts c hc).2]
+  apply minMax_spec
+  have h1 := mkItems_key pts ws x hx
+  exact List.mem_map.2 ⟨x.c, List.mem_iff_getElem?.2 ⟨_, h1⟩, rfl⟩
+
+/-! ## The whole run -/
+
+theorem Tree.AllNodes.imp {ι : Type} {P Q : ι → Tree ι → Tree ι → Prop}
+    (h : ∀ i l r, P i l r → Q i l r) : ∀ {t : Tree ι}, t.AllNodes P → t.AllNodes Q := by
+  intro t
+  induction t with
+  | empty => intro _; trivial
+  | leaf p ids => intro _; trivial
+  | node i lo hi ihl ihh => intro ⟨h1, h2, h3⟩; exact ⟨h _ _ _ h1, ihl h2, ihh h3⟩
+
+theorem Tree.AllNodes.and {ι : Type} {P Q : ι → Tree ι → Tree ι → Prop} :
+    ∀ {t : Tree ι}, t.AllNodes P → t.AllNodes Q → t.AllNodes (fun i l r => P i l r ∧ Q i l r) := by
+  intro t
+  induction t with
+  | empty => intro _ _; trivial
+  | leaf p ids => intro _ _; trivial
+  | node i lo hi ihl ihh =>
+    intro ⟨h1, h2, h3⟩ ⟨g1, g2, g3⟩; exact ⟨⟨h1, g1⟩, ihl h2 g2, ihh h3 g3⟩
+
+/-- The invariant at every node of a run of `rcb` on exact integers (box = the bounding
+box of the points, `D ≥ 1`). -/
+theorem runTreeT_facts (wt : Int → Int → Bool) (cfg : Cfg) (iter : Nat) (pts : List (List Int))
+    (ws : List Int) (tt : Tree (NodeTrace Int)) (hdim : 0 < cfg.dim) (hw : ∀ w ∈ ws, 0 ≤ w)
+    (hlen : ws.length = pts.length)
+    (h : runTreeT wt cfg iter pts ws (bbox cfg.dim pts).1 (bbox cfg.dim pts).2 = .ok tt) :
+    tt.members.Perm (List.range pts.length) ∧ tt.AllNodes (NodeFacts wt pts ws) := by
+  have := recurseT_facts wt cfg pts ws hdim iter (mkItems pts ws) 0 0 ws.sum _ _ tt
+    (mkItems_nonneg pts ws hw) (mkItems_itemsOf pts ws) (mkItems_sum pts ws (by omega)).symm hdim
+    (bbox_boxOk cfg.dim pts ws) h
+  rw [mkItems_ids pts ws hlen] at this
+  exact this
+
+/-- The box-free part, for every `dim` and every box. -/
+theorem runTreeT_sums (wt : Int → Int → Bool) (cfg : Cfg) (iter : Nat) (pts : List (List Int))
+    (ws : List Int) (lo hi : List Int) (tt : Tree (NodeTrace Int)) (hw : ∀ w ∈ ws, 0 ≤ w)
+    (hlen : ws.length = pts.length) (h : runTreeT wt cfg iter pts ws lo hi = .ok tt) :
+    tt.members.Perm (List.range pts.length) ∧ tt.AllNodes (NodeSums wt pts ws) := by
+  have := recurseT_sums wt cfg pts ws iter (mkItems pts ws) 0 0 ws.sum _ _ tt
+    (mkItems_nonneg pts ws hw) (mkItems_itemsOf pts ws) (mkItems_sum pts ws (by omega)).symm h
+  rw [mkItems_ids pts ws hlen] at this
+  exact this
+
+/-- `verdicts` of the erased tree, read off the instrumented tree. -/
+theorem verdicts_all_iff (wt : Int → Int → Bool) (pts : List (List Int)) (ws : List Int)
+    (Q : Exit × Bool → Prop) (tt : Tree (NodeTrace Int)) :
+    (∀ v ∈ verdicts wt pts ws (tt.map NodeTrace.info), Q v) ↔
+      tt.AllNodes (fun tr l h => Q (tr.info.exit, nodeOk wt pts ws tr.info.coord l.members h.members)) := by
+  induction tt with
+  | empty => simp [Tree.map, verdicts, Tree.AllNodes]
+  | leaf p ids => simp [Tree.map, verdicts, Tree.AllNodes]
+  | node i lo hi ihl ihh =>
+    simp only [Tree.map, verdicts, Tree.AllNodes, List.mem_cons, List.mem_append, members_map,
+      ← ihl, ← ihh]
+    constructor
+    · intro h
+      exact ⟨h _ (Or.inl rfl), fun v hv => h v (Or.inr (Or.inl hv)), fun v hv => h v (Or.inr (Or.inr hv))⟩
+    · rintro ⟨h1, h2, h3⟩ v (rfl | hv | hv)
+      · exact h1
+      · exact h2 v hv
+      · exact h3 v hv
+
+theorem balanced_map_iff (wt : Int → Int → Bool) (pts : List (List Int)) (ws : List Int)
+    (tt : Tree (NodeTrace Int)) :
+    balanced wt pts ws (tt.map NodeTrace.info) = true ↔
+      tt.AllNodes (fun tr l h => nodeOk wt pts ws tr.info.coord l.members h.members = true) := by
+  rw [balanced_iff_verdicts, verdicts_all_iff wt pts ws (fun v => v.2 = true)]
+
+/-- Executable summary of an instrumented tree, pre-order: `(exit, premise?, ok?)`. -/
+def verdictsT (wt : Int → Int → Bool) (pts : List (List Int)) (ws : List Int) :
+    Tree (NodeTrace Int) → List (Exit × Bool × Bool)
+  | .empty => []
+  | .leaf _ _ => []
+  | .node tr lo hi =>
+    (tr.info.exit, nodePremiseB pts tr lo hi, nodeOk wt pts ws tr.info.coord lo.members hi.members) ::
+      (verdictsT wt pts ws lo ++ verdictsT wt pts ws hi)
+
+/-- Run `rcb` on integers with the instrumented recursion and summarise every node. -/
+def judgeT (wt : Int → Int → Bool) (cfg : Cfg) (iter : Nat) (pts : List (List Int)) (ws : List Int) :
+    Option (List (Exit × Bool × Bool)) :=
+  let bb := bbox cfg.dim pts
+  match runTreeT wt cfg iter pts ws bb.1 bb.2 with
+  | .ok t => some (verdictsT wt pts ws t)
+  | _ => none
+
 end Coupe.Rcb
